@@ -1804,7 +1804,7 @@ class QuadraticForm(Functional):
             space=domain, linear=(operator is None and constant == 0))
 
         self.__operator = operator
-        self.__vector = vector
+        self.__vector = None if vector is None else vector.copy()
         self.__constant = constant
 
         if self.constant not in self.range:
